@@ -150,7 +150,7 @@ theorem removeNodeByName_eq (h : G) (d : Dir) (name n : Nat) (hid : (h.nodes.map
     · simp only [nonFacNodes, List.mem_map, List.mem_filter, Bool.and_eq_true, beq_iff_eq, bne_iff_ne, ne_eq]
       exact ⟨e, ⟨he, hec, hek⟩, hen⟩
   have hifs : ifaceListNodeD h d n = ifaceListNode h n := by
-    simp only [ifaceListNodeD, ifaceListNode, compsOf, dictVals_eq_self d _ hcomp]
+    simp only [ifaceListNodeD, ifaceListNode]
   have hguard : (h.cls? n == some .node && h.kind? n != some kFacility) = true := by
     rw [hcls, hec, hkind]; simp [hek]
   simp only [removeNodeByName, hget, hifs, removeNodeApi, hguard, ite_true, bind, Except.bind]
@@ -182,7 +182,7 @@ theorem removeFacilityByName_eq (h : G) (d : Dir) (name n : Nat) (hid : (h.nodes
     · simp only [facNodes, List.mem_map, List.mem_filter, Bool.and_eq_true, beq_iff_eq]
       exact ⟨e, ⟨he, hec, hek⟩, hen⟩
   have hifs : ifaceListNodeD h d n = ifaceListNode h n := by
-    simp only [ifaceListNodeD, ifaceListNode, compsOf, dictVals_eq_self d _ hcomp]
+    simp only [ifaceListNodeD, ifaceListNode]
   have hguard : (h.cls? n == some .node && h.kind? n == some kFacility) = true := by
     rw [hcls, hec, hk]; simp
   simp only [removeFacilityApi, hguard, ite_true]
@@ -234,7 +234,7 @@ theorem nodeRemoveComponent_eq (h : G) (d : Dir) (n c name : Nat) (hn : h.cls? n
     eq_of_nodup_map' d.nameOf hcomp hy hc (hny.trans hname.symm)
   have hcc := mem_nbrs_cls _ _ _ _ _ hc
   simp only [nodeRemoveComponent, hn, bne_self_eq_false, Bool.false_eq_true, ite_false, findChild_unique hc hname huniq,
-    dictGet_unique hc hname huniq, bind, Except.bind, removeComponentApi, hcc, beq_self_eq_true, ite_true]
+    bind, Except.bind, removeComponentApi, hcc, beq_self_eq_true, ite_true]
 
 /-- **`Node.remove_network_service(name)`** through the node (or component) handle -/
 theorem nodeRemoveNs_eq (h : G) (d : Dir) (n s name : Nat) (hn : h.cls? n = some .node ∨ h.cls? n = some .comp)
